@@ -307,7 +307,7 @@ def parallel_map(fn, items, procs=None):
     if procs <= 1 or len(items) < 8:
         return [fn(x) for x in items]
     with mp.get_context('fork').Pool(procs) as pool:
-        return pool.map(fn, items, chunksize=max(1, len(items) // (procs * 8)))
+        return pool.map(fn, items, chunksize=1 if len(items) < 400 else max(1, len(items) // (procs * 16)))
 
 
 def as_loadable(doc):
